@@ -17,6 +17,9 @@
 
 #if defined(HAVE_AVXINTRIN_H) && defined(HAVE_WMMINTRIN_H)
 #include "aegis128l_aesni.h"
+#ifdef SODIUM_VERIF
+# include "private/verif.h"
+#endif
 #endif
 
 static const aegis128l_implementation *implementation = &aegis128l_soft_implementation;
@@ -141,10 +144,16 @@ int
 _crypto_aead_aegis128l_pick_best_implementation(void)
 {
     implementation = &aegis128l_soft_implementation;
+#ifdef SODIUM_VERIF
+    SODIUM_VERIF_EVENT("pick", "aegis128l", "soft");
+#endif
 
 #if defined(HAVE_ARMCRYPTO) && defined(NATIVE_LITTLE_ENDIAN)
     if (sodium_runtime_has_armcrypto()) {
         implementation = &aegis128l_armcrypto_implementation;
+#ifdef SODIUM_VERIF
+        SODIUM_VERIF_EVENT("pick", "aegis128l", "armcrypto");
+#endif
         return 0;
     }
 #endif
@@ -152,6 +161,9 @@ _crypto_aead_aegis128l_pick_best_implementation(void)
 #if defined(HAVE_AVXINTRIN_H) && defined(HAVE_WMMINTRIN_H)
     if (sodium_runtime_has_aesni() & sodium_runtime_has_avx()) {
         implementation = &aegis128l_aesni_implementation;
+#ifdef SODIUM_VERIF
+        SODIUM_VERIF_EVENT("pick", "aegis128l", "aesni");
+#endif
         return 0;
     }
 #endif
